@@ -161,6 +161,14 @@ def narrowing_items():
 
 
 def run(ctx):
+    C.expect_sessions(ctx["report"], ctx["rundir"], "C10",
+                      [(["Total(1, 2)", "total(1, 2)"], (lambda o: o.get("status") == 1 and "Unknown function" in (o.get("err") or "")), "an unknown name stays unknown after its capitalised spelling was tried"),
+                       (["SQRT(2)", "sqrt(4)"], "I:2", "a known function after its capitalised spelling was tried"),
+                       (["Nosuch(1)", "nosuch(1)", "NOSUCH(1)"], (lambda o: o.get("status") == 1 and "Unknown function" in (o.get("err") or "")), "unknown names differing by case"),
+                       (["mdegC(3)"], lambda o: o.get("status") == 1 and not o.get("escaped") and (o.get("err") or "").strip() != "" and (o.get("out") or "") == "", "an unknown function named like a prefixed offset unit is a diagnosed error"),
+                       (["kdegF(1, 2)"], lambda o: o.get("status") == 1 and not o.get("escaped") and (o.get("err") or "").strip() != "" and (o.get("out") or "") == "", "an unknown function named like a prefixed offset unit is a diagnosed error"),
+                       (["km(3)"], lambda o: o.get("status") == 1 and not o.get("escaped") and (o.get("err") or "").strip() != "" and (o.get("out") or "") == "", "an unknown function named like a unit is a diagnosed error"),
+                       (["{hline(y, weight: w) : y in {1, 2}, w in {1, \"thick\"}}"], lambda o: o.get("status") == 1 and not o.get("escaped") and (o.get("err") or "").strip() != "" and (o.get("out") or "") == "", "a wrongly typed keyword value at the second evaluation of a call site")], kind="rejection")
     C.config_matrix(ctx["report"], ctx["rundir"], "C10", ["nosuchfn(1)", "Total(1, 2); total(1, 2)", "mdegC(3)", "kdegF(1, 2)", "sin(1, zz: 2)", "max(1, 2)", "(1/2)!", "C(5, 0.1*3*10)", "sqrt(4)", "vline(1, weight: \"a\")", "1 + \"a\""])
     # which implementation runs depends on the kinds of THIS call's arguments only: not on what ran before at the same place
     C.seam_check(ctx["report"], ctx["rundir"], "C10",
